@@ -12,9 +12,10 @@ Local Open Scope N_scope.
 Lemma parse_class_skip p b : parse_class p (skip_spaces b) = parse_class p b.
 Proof. unfold parse_class. rewrite skip_spaces_idem. reflexivity. Qed.
 
-Lemma parse_astring_skip p cs b : parse_astring p cs (skip_spaces b) = parse_astring p cs b.
+Lemma parse_cstring_skip cls p cs b :
+  parse_cstring cls p cs (skip_spaces b) = parse_cstring cls p cs b.
 Proof.
-  unfold parse_astring, parse_string, parse_quoted, parse_literal.
+  unfold parse_cstring, parse_string, parse_quoted, parse_literal.
   rewrite parse_class_skip, skip_spaces_idem. reflexivity.
 Qed.
 
@@ -25,10 +26,12 @@ Proof. destruct k as [|k]; [lia|]. intros _. reflexivity. Qed.
 (* -------------------------------------------------- the layout of a wire *)
 (* first buffer and, per synchronizing literal, (announced size, continuation
    buffer) *)
-Fixpoint layout (args : list sparg) (ke : nat) (crlf : bool) : bytes * list (N * bytes) :=
+Fixpoint layout (args : list warg) (ke : nat) (crlf : bool) : bytes * list (N * bytes) :=
   match args with
   | [] => (repeat SP ke ++ eol_bytes crlf, [])
-  | a :: r =>
+  | WRaw n x _ :: r =>
+    let '(b, cs) := layout r ke crlf in (repeat SP n ++ x ++ b, cs)
+  | WStr a :: r =>
     let '(b, cs) := layout r ke crlf in
     match sa_sp a with
     | SpLit => (repeat SP (sa_spaces a) ++ lit_prefix false (blen (sa_val a)),
@@ -44,97 +47,154 @@ Proof.
   induction args as [|a r IH]; cbn [flat_map layout].
   - cbn [fst snd map concat]. rewrite app_nil_r. reflexivity.
   - destruct (layout r ke crlf) as [b cs] eqn:E. cbn [fst snd] in IH.
-    rewrite <- app_assoc, IH. unfold arg_wire.
-    destruct (sa_sp a); cbn [fst snd map concat spell_line]; rewrite <- ?app_assoc; reflexivity.
+    rewrite <- app_assoc, IH. destruct a as [a|n x v]; unfold arg_wire.
+    + destruct (sa_sp a); cbn [fst snd map concat spell_line]; rewrite <- ?app_assoc; reflexivity.
+    + cbn [fst snd]. rewrite <- !app_assoc. reflexivity.
 Qed.
 
+Definition wspaces (w : warg) : nat := match w with WStr a => sa_spaces a | WRaw n _ _ => n end.
+
 (* what follows an argument is a space or the end of the line *)
-Lemma layout_head args ke crlf : Forall (fun a => (1 <= sa_spaces a)%nat) args ->
-  forall p, p SP = false -> p CR = false -> p LF = false ->
-  head_sat p (fst (layout args ke crlf)) = false.
+Lemma layout_follow args ke crlf : Forall (fun a => (1 <= wspaces a)%nat) args ->
+  follow_ok (fst (layout args ke crlf)).
 Proof.
-  intros H p Hsp Hcr Hlf. destruct args as [|a r].
-  - cbn [layout fst]. destruct ke; [destruct crlf|]; cbn; assumption.
+  intros H. destruct args as [|a r].
+  - cbn [layout fst]. destruct ke; [destruct crlf|]; cbn; auto.
   - inversion H as [|? ? Ha _]; subst. cbn [layout].
-    destruct (layout r ke crlf) as [b cs].
-    destruct (sa_spaces a) as [|k]; [lia|].
-    destruct (sa_sp a); cbn; assumption.
+    destruct (layout r ke crlf) as [b cs]. destruct a as [a|n x v]; cbn [wspaces] in Ha.
+    + destruct (sa_spaces a) as [|k]; [lia|]. destruct (sa_sp a); cbn; auto.
+    + destruct n; [lia|]. cbn. auto.
+Qed.
+
+Lemma follow_head p rest : follow_ok rest -> p SP = false -> p CR = false -> p LF = false ->
+  head_sat p rest = false.
+Proof. destruct rest as [|c r]; [intros []|]. cbn. intros [H|[H|H]] ? ? ?; subst c; assumption. Qed.
+
+Lemma arg_ok_spaces p k w : arg_ok p k w -> (1 <= wspaces w)%nat.
+Proof. destruct k, w; cbn; tauto. Qed.
+
+Lemma Forall2_spaces p kinds args : Forall2 (arg_ok p) kinds args ->
+  Forall (fun a => (1 <= wspaces a)%nat) args.
+Proof. induction 1; constructor; eauto using arg_ok_spaces. Qed.
+
+Lemma kind_class_facts k : kind_class k SP = false /\ kind_class k DQUOTE = false /\
+  kind_class k LBRACE = false /\ kind_class k CR = false /\ kind_class k LF = false /\
+  kind_class k RBRACE = false.
+Proof. destruct k; repeat split; reflexivity. Qed.
+
+(* the parser of a string position *)
+Definition item_parser (k : argkind) : sparams -> list bytes -> bytes -> pres (bytes * bytes) :=
+  parse_cstring (kind_class k).
+
+Lemma parse_tail_layout opts ke crlf : parse_tail opts (repeat SP ke ++ eol_bytes crlf) = Some (Some []).
+Proof.
+  unfold parse_tail, parse_endline. rewrite skip_spaces_repeat.
+  destruct crlf; cbn; rewrite andb_false_r; reflexivity.
 Qed.
 
 (* ---------------------------------------------------- parsing the layout *)
-Lemma parse_args_layout p ke crlf : forall args kinds vals,
-  Forall (arg_ok p) args -> interp_all kinds (map sa_val args) = Some vals ->
-  (forall extra, parse_args kinds p (map snd (snd (layout args ke crlf)) ++ extra)
-                            (fst (layout args ke crlf)) = POk vals [] extra) /\
+Lemma parse_args_layout p opts ke crlf : forall args kinds vals,
+  Forall2 (arg_ok p) kinds args -> interp_all kinds args = Some vals ->
+  (forall extra, parse_args kinds opts p (map snd (snd (layout args ke crlf)) ++ extra)
+                            (fst (layout args ke crlf)) = POk (Some vals) [] extra) /\
   (forall j, (j < length (snd (layout args ke crlf)))%nat ->
-     parse_args kinds p (firstn j (map snd (snd (layout args ke crlf))))
+     parse_args kinds opts p (firstn j (map snd (snd (layout args ke crlf))))
                 (fst (layout args ke crlf))
      = PNeed (fst (nth j (snd (layout args ke crlf)) (0, [])))).
 Proof.
   induction args as [|a r IH]; intros kinds vals Hok Hi.
-  - destruct kinds; [|discriminate]. cbn in Hi. inversion Hi; subst.
+  - inversion Hok; subst. cbn in Hi. inversion Hi; subst.
     cbn [layout fst snd map length]. split; [|intros j Hj; lia].
-    intro extra. cbn [parse_args app]. unfold parse_endline. rewrite skip_spaces_repeat.
-    destruct crlf; reflexivity.
-  - destruct kinds as [|k ks]; [discriminate|]. cbn [map interp_all] in Hi.
-    destruct (interp k (sa_val a)) as [av|] eqn:Ek; [|discriminate].
-    destruct (interp_all ks (map sa_val r)) as [l|] eqn:El; [|discriminate].
-    inversion Hi; subst. inversion Hok as [|? ? Ha Hr]; subst. destruct Ha as [Hsp Hspell].
+    intro extra. cbn [parse_args app]. rewrite parse_tail_layout. reflexivity.
+  - inversion Hok as [|k a0 ks r0 Ha Hr]; subst. cbn [interp_all] in Hi.
+    destruct (match a with WStr a1 => interp k (sa_val a1) | WRaw _ _ v => Some v end) as [av|] eqn:Ek;
+      [|discriminate].
+    destruct (interp_all ks r) as [l|] eqn:El; [|discriminate].
+    inversion Hi; subst.
     destruct (IH ks l Hr El) as [IHfull IHneed]. clear IH.
-    pose proof (layout_head r ke crlf) as Hhead.
-    assert (Hsp' : Forall (fun a => (1 <= sa_spaces a)%nat) r).
-    { eapply Forall_impl; [|exact Hr]. intros x [Hx _]. exact Hx. }
-    specialize (Hhead Hsp' astring_char eq_refl eq_refl eq_refl).
+    pose proof (layout_follow r ke crlf (Forall2_spaces _ _ _ Hr)) as Hfol.
     cbn [layout]. destruct (layout r ke crlf) as [b cs] eqn:E. cbn [fst snd] in *.
-    destruct (sa_sp a) eqn:Es; cbn [fst snd map].
-    + (* atom *)
-      pose proof (fun cs0 => astring_spelling p SpAtom (sa_val a) (sa_spaces a) b cs0 Hspell (fun _ => Hhead)) as A.
-      cbn [spell_conts spell_buf spell_line spell_raw] in A.
+    destruct a as [a|n x v].
+    + (* a string position *)
+      assert (Hk : exists cls, cls = kind_class k /\
+                 (forall cs0 b0, (match k with
+                                  | ARaw r1 => PFail
+                                  | _ => pbind (match k with
+                                                | AListMb => parse_cstring listmb_char p cs0 b0
+                                                | _ => parse_astring p cs0 b0 end)
+                                           (fun vr b2 cs2 => match interp k (fst vr) with
+                                              | Some a1 => pbind (parse_args ks opts p cs2 b2)
+                                                   (fun l0 b3 cs3 => POk (option_map (cons a1) l0) b3 cs3)
+                                              | None => PFail end)
+                                  end) =
+                                 pbind (parse_cstring cls p cs0 b0)
+                                   (fun vr b2 cs2 => match interp k (fst vr) with
+                                      | Some a1 => pbind (parse_args ks opts p cs2 b2)
+                                           (fun l0 b3 cs3 => POk (option_map (cons a1) l0) b3 cs3)
+                                      | None => PFail end))).
+      { exists (kind_class k). split; [reflexivity|]. intros cs0 b0.
+        destruct k; cbn [kind_class arg_ok] in *; try reflexivity. destruct Ha. }
+      destruct Hk as (cls & Ecls & Hstep).
+      assert (Hnotraw : forall r1, k <> ARaw r1) by (intros r1 ->; exact Ha).
+      assert (Harg : (1 <= sa_spaces a)%nat /\ spelling_okc cls p (sa_sp a) (sa_val a) = true).
+      { subst cls. destruct k; cbn [arg_ok] in Ha; try exact Ha. destruct Ha. }
+      destruct Harg as [Hsp Hspell].
+      destruct (kind_class_facts k) as (F1 & F2 & F3 & F4 & F5 & F6). rewrite <- Ecls in *.
+      pose proof (follow_head cls b Hfol F1 F4 F5) as Hhead.
+      assert (Estep : forall cs0 b0,
+                parse_args (k :: ks) opts p cs0 (repeat SP (sa_spaces a) ++ b0) =
+                pbind (parse_cstring cls p cs0 (repeat SP (sa_spaces a) ++ b0))
+                  (fun vr b2 cs2 => match interp k (fst vr) with
+                     | Some a1 => pbind (parse_args ks opts p cs2 b2)
+                          (fun l0 b3 cs3 => POk (option_map (cons a1) l0) b3 cs3)
+                     | None => PFail end)).
+      { intros cs0 b0. cbn [parse_args]. rewrite (parse_space_repeat (sa_spaces a) b0 Hsp).
+        destruct k; try (exfalso; eapply Hnotraw; reflexivity);
+          rewrite <- (parse_cstring_skip _ p cs0 (repeat SP (sa_spaces a) ++ b0)); subst cls; reflexivity. }
+      destruct (sa_sp a) eqn:Es; cbn [fst snd map].
+      * pose proof (fun cs0 => cstring_spelling cls p SpAtom (sa_val a) (sa_spaces a) b cs0 F1 F2 F3
+                                 Hspell (fun _ => Hhead)) as A.
+        cbn [spell_conts spell_buf spell_line spell_raw] in A. cbn [spell_line].
+        split.
+        -- intro extra. rewrite Estep, A. cbn [pbind fst]. rewrite Ek, IHfull. reflexivity.
+        -- intros j Hj. rewrite Estep, A. cbn [pbind fst]. rewrite Ek, (IHneed j Hj). reflexivity.
+      * pose proof (fun cs0 => cstring_spelling cls p SpQuoted (sa_val a) (sa_spaces a) b cs0 F1 F2 F3
+                                 Hspell (fun H => ltac:(discriminate H))) as A.
+        cbn [spell_conts spell_buf spell_line spell_raw] in A. cbn [spell_line].
+        split.
+        -- intro extra. rewrite Estep, A. cbn [pbind fst]. rewrite Ek, IHfull. reflexivity.
+        -- intros j Hj. rewrite Estep, A. cbn [pbind fst]. rewrite Ek, (IHneed j Hj). reflexivity.
+      * pose proof (fun cs0 => cstring_spelling cls p SpLit (sa_val a) (sa_spaces a) b cs0 F1 F2 F3
+                                 Hspell (fun H => ltac:(discriminate H))) as A.
+        cbn [spell_conts spell_buf spell_line spell_raw] in A.
+        split.
+        -- intro extra. cbn [app]. rewrite Estep, A. cbn [pbind fst]. rewrite Ek, IHfull. reflexivity.
+        -- intros j Hj. cbn [length] in Hj. destruct j as [|j].
+           ++ cbn [firstn nth fst]. rewrite Estep.
+              pose proof (cstring_lit_needs_cont cls p (sa_val a) (sa_spaces a) F1 F2 F3 Hspell) as B.
+              cbn [spell_line] in B. rewrite B. reflexivity.
+           ++ cbn [firstn nth]. rewrite Estep, A. cbn [pbind fst]. rewrite Ek.
+              rewrite (IHneed j) by lia. reflexivity.
+      * pose proof (fun cs0 => cstring_spelling cls p SpLitPlus (sa_val a) (sa_spaces a) b cs0 F1 F2 F3
+                                 Hspell (fun H => ltac:(discriminate H))) as A.
+        cbn [spell_conts spell_buf spell_line spell_raw] in A. cbn [spell_line].
+        split.
+        -- intro extra. rewrite Estep, A. cbn [pbind fst]. rewrite Ek, IHfull. reflexivity.
+        -- intros j Hj. rewrite Estep, A. cbn [pbind fst]. rewrite Ek, (IHneed j Hj). reflexivity.
+    + (* a raw position *)
+      destruct k as [| | |rk]; cbn [arg_ok] in Ha; try (destruct Ha; fail).
+      destruct Ha as (Hn & Hne & Hhd & Hlf & Hse & Hparse). inversion Ek; subst av.
+      assert (Esk : skip_spaces (repeat SP n ++ x ++ b) = x ++ b).
+      { rewrite skip_spaces_repeat. destruct x as [|c x']; [congruence|]. cbn [app head_sat] in *.
+        apply skip_spaces_nonspace. intro Ec. subst c. rewrite N.eqb_refl in Hhd. discriminate. }
       split.
-      * intro extra. cbn [parse_args]. rewrite parse_space_repeat by exact Hsp.
-        rewrite parse_astring_skip, A. cbn [pbind fst]. rewrite Ek, IHfull. reflexivity.
-      * intros j Hj. cbn [parse_args]. rewrite parse_space_repeat by exact Hsp.
-        rewrite parse_astring_skip, A. cbn [pbind fst]. rewrite Ek, (IHneed j Hj). reflexivity.
-    + (* quoted *)
-      pose proof (fun cs0 => astring_spelling p SpQuoted (sa_val a) (sa_spaces a) b cs0 Hspell
-                               (fun H => ltac:(discriminate H))) as A.
-      cbn [spell_conts spell_buf spell_line spell_raw] in A.
-      split.
-      * intro extra. cbn [parse_args]. rewrite parse_space_repeat by exact Hsp.
-        rewrite parse_astring_skip, A. cbn [pbind fst]. rewrite Ek, IHfull. reflexivity.
-      * intros j Hj. cbn [parse_args]. rewrite parse_space_repeat by exact Hsp.
-        rewrite parse_astring_skip, A. cbn [pbind fst]. rewrite Ek, (IHneed j Hj). reflexivity.
-    + (* synchronizing literal *)
-      pose proof (fun cs0 => astring_spelling p SpLit (sa_val a) (sa_spaces a) b cs0 Hspell
-                               (fun H => ltac:(discriminate H))) as A.
-      cbn [spell_conts spell_buf spell_line spell_raw] in A.
-      split.
-      * intro extra. cbn [parse_args app]. rewrite parse_space_repeat by exact Hsp.
-        rewrite parse_astring_skip, A. cbn [pbind fst]. rewrite Ek, IHfull. reflexivity.
-      * intros j Hj. cbn [length] in Hj. destruct j as [|j].
-        -- cbn [firstn nth fst parse_args]. rewrite parse_space_repeat by exact Hsp.
-           rewrite parse_astring_skip.
-           pose proof (astring_lit_needs_cont p (sa_val a) (sa_spaces a) Hspell) as B.
-           cbn [spell_line] in B. rewrite B. reflexivity.
-        -- cbn [firstn nth parse_args]. rewrite parse_space_repeat by exact Hsp.
-           rewrite parse_astring_skip, A. cbn [pbind fst]. rewrite Ek.
-           rewrite (IHneed j) by lia. reflexivity.
-    + (* non-synchronizing literal *)
-      pose proof (fun cs0 => astring_spelling p SpLitPlus (sa_val a) (sa_spaces a) b cs0 Hspell
-                               (fun H => ltac:(discriminate H))) as A.
-      cbn [spell_conts spell_buf spell_line spell_raw] in A.
-      split.
-      * intro extra. cbn [parse_args]. rewrite parse_space_repeat by exact Hsp.
-        cbn [spell_line]. rewrite parse_astring_skip, A. cbn [pbind fst].
-        rewrite Ek, IHfull. reflexivity.
-      * intros j Hj. cbn [parse_args]. rewrite parse_space_repeat by exact Hsp.
-        cbn [spell_line]. rewrite parse_astring_skip, A. cbn [pbind fst].
-        rewrite Ek, (IHneed j Hj). reflexivity.
+      * intro extra. cbn [fst snd parse_args]. rewrite parse_space_repeat by exact Hn.
+        rewrite Esk, (Hparse b Hfol). rewrite IHfull. reflexivity.
+      * intros j Hj. cbn [fst snd parse_args] in *. rewrite parse_space_repeat by exact Hn.
+        rewrite Esk, (Hparse b Hfol). rewrite (IHneed j Hj). reflexivity.
 Qed.
 
 (* ------------------------------------------------------------ the reader *)
-Definition lf_free (x : bytes) : Prop := forallb (fun c => negb (c =? LF)) x = true.
-
 Lemma lf_free_app x y : lf_free x -> lf_free y -> lf_free (x ++ y).
 Proof. unfold lf_free. intros Hx Hy. rewrite forallb_app, Hx, Hy. reflexivity. Qed.
 
@@ -244,10 +304,6 @@ Proof.
   reflexivity.
 Qed.
 
-(* the last byte of x, if any, is neither '}' nor CR *)
-Definition safe_end (x : bytes) : Prop :=
-  match rev x with [] => True | c :: _ => c <> RBRACE /\ c <> CR end.
-
 Lemma safe_end_app x y : y <> [] -> safe_end y -> safe_end (x ++ y).
 Proof.
   unfold safe_end. intros Hy H. rewrite rev_app_distr.
@@ -313,23 +369,23 @@ Lemma lf_free_print_quoted v : no_crlf v = true -> lf_free (print_quoted v).
 Proof. intro H. unfold print_quoted. apply (lf_free_app [DQUOTE]); [reflexivity|].
   apply lf_free_app; [apply lf_free_escape, H|reflexivity]. Qed.
 
-Lemma safe_end_astring v : is_astring_atom v = true -> safe_end v.
+Lemma safe_end_class p x : x <> [] -> forallb p x = true -> p RBRACE = false -> p CR = false ->
+  safe_end x.
 Proof.
-  unfold is_astring_atom, safe_end. destruct v as [|c0 v0]; [discriminate|]. intro H.
-  rewrite <- forallb_rev in H. destruct (rev (c0 :: v0)) as [|c r]; [exact I|].
-  cbn [forallb] in H. apply andb_true_iff in H as [Hc _].
-  split; intro E; subst c; discriminate Hc.
+  intros Hne H H1 H2. unfold safe_end. rewrite <- forallb_rev in H.
+  destruct (rev x) as [|c r]; [exact I|]. cbn [forallb] in H. apply andb_true_iff in H as [Hc _].
+  split; intro E; subst c; congruence.
 Qed.
 
-Lemma is_astring_atom_spec v : is_astring_atom v = true -> v <> [] /\ forallb astring_char v = true.
-Proof. unfold is_astring_atom. destruct v; [discriminate|]. intro H. split; [discriminate|exact H]. Qed.
+Lemma is_class_atom_spec cls v : is_class_atom cls v = true -> v <> [] /\ forallb cls v = true.
+Proof. unfold is_class_atom. destruct v; [discriminate|]. intro H. split; [discriminate|exact H]. Qed.
 
-Lemma layout_glued p ke crlf : forall args, Forall (arg_ok p) args ->
+Lemma layout_glued p ke crlf : forall args kinds, Forall2 (arg_ok p) kinds args ->
   (forall pre, lf_free pre -> safe_end pre -> glued (pre ++ fst (layout args ke crlf))) /\
   Forall (fun nc => exists v g, snd nc = v ++ g /\ fst nc = blen v /\ glued g)
          (snd (layout args ke crlf)).
 Proof.
-  induction args as [|a r IH]; intro Hok.
+  induction args as [|a r IH]; intros kinds Hok.
   - cbn [layout fst snd]. split; [|constructor]. intros pre Hpre Hsafe.
     exists (pre ++ repeat SP ke ++ (if crlf then [CR] else [])), [].
     split; [|split].
@@ -341,19 +397,34 @@ Proof.
         with (pre ++ repeat SP ke ++ eol_bytes crlf)
         by (rewrite <- !app_assoc; destruct crlf; reflexivity).
       apply suffix_eol. exact Hsafe.
-  - inversion Hok as [|? ? Ha Hr]; subst. destruct Ha as [Hsp Hspell].
-    destruct (IH Hr) as [IH1 IH2]. clear IH. cbn [layout].
+  - inversion Hok as [|k a0 ks r0 Ha Hr]; subst.
+    destruct (IH ks Hr) as [IH1 IH2]. clear IH. cbn [layout].
     destruct (layout r ke crlf) as [b cs] eqn:E. cbn [fst snd] in *.
-    destruct (sa_sp a) eqn:Es; cbn [fst snd spelling_ok] in *.
+    destruct a as [a|n x v].
+    2:{ (* a raw argument *)
+      destruct k as [| | |rk]; cbn [arg_ok] in Ha; try (destruct Ha; fail).
+      destruct Ha as (Hn & Hne & Hhd & Hlf & Hse & _).
+      cbn [fst snd]. split; [|exact IH2]. intros pre Hpre Hsafe.
+      replace (pre ++ repeat SP n ++ x ++ b) with ((pre ++ repeat SP n ++ x) ++ b)
+        by (rewrite <- !app_assoc; reflexivity).
+      apply IH1.
+      - apply lf_free_app; [exact Hpre|]. apply lf_free_app; [apply lf_free_repeat|exact Hlf].
+      - rewrite app_assoc. apply safe_end_app; assumption. }
+    assert (Harg : (1 <= sa_spaces a)%nat /\ spelling_okc (kind_class k) p (sa_sp a) (sa_val a) = true).
+    { destruct k; cbn [arg_ok] in Ha; try exact Ha. destruct Ha. }
+    destruct Harg as [Hsp Hspell].
+    destruct (kind_class_facts k) as (F1 & F2 & F3 & F4 & F5 & F6).
+    destruct (sa_sp a) eqn:Es; cbn [fst snd spelling_okc spelling_ok] in *.
     + (* atom *)
       split; [|exact IH2]. intros pre Hpre Hsafe. cbn [spell_line].
-      destruct (is_astring_atom_spec _ Hspell) as [Hne Hall].
+      destruct (is_class_atom_spec _ _ Hspell) as [Hne Hall].
       replace (pre ++ repeat SP (sa_spaces a) ++ sa_val a ++ b)
         with ((pre ++ repeat SP (sa_spaces a) ++ sa_val a) ++ b) by (rewrite <- !app_assoc; reflexivity).
       apply IH1.
       * apply lf_free_app; [exact Hpre|]. apply lf_free_app; [apply lf_free_repeat|].
-        apply (lf_free_class astring_char); [reflexivity|exact Hall].
-      * rewrite app_assoc. apply safe_end_app; [exact Hne|]. apply safe_end_astring, Hspell.
+        apply (lf_free_class (kind_class k)); assumption.
+      * rewrite app_assoc. apply safe_end_app; [exact Hne|].
+        apply (safe_end_class (kind_class k)); assumption.
     + (* quoted *)
       split; [|exact IH2]. intros pre Hpre Hsafe. cbn [spell_line].
       replace (pre ++ repeat SP (sa_spaces a) ++ print_quoted (sa_val a) ++ b)
@@ -430,28 +501,21 @@ Proof.
 Qed.
 
 (* ----------------------------------------------------- the whole command *)
-Lemma interp_all_length kinds vs vals : interp_all kinds vs = Some vals -> length kinds = length vs.
-Proof.
-  revert vs vals. induction kinds as [|k ks IH]; intros [|v vs] vals H; cbn in H; try discriminate.
-  - reflexivity.
-  - destruct (interp k v); [|discriminate]. destruct (interp_all ks vs) eqn:E; [|discriminate].
-    cbn. f_equal. eapply IH. exact E.
-Qed.
-
 Lemma count_sync_layout args ke crlf :
   length (snd (layout args ke crlf)) = count_sync args.
 Proof.
   unfold count_sync. induction args as [|a r IH]; [reflexivity|]. cbn [layout filter].
-  destruct (layout r ke crlf) as [b cs]. cbn [snd] in IH.
-  destruct (sa_sp a); cbn [snd length]; rewrite IH; reflexivity.
+  destruct (layout r ke crlf) as [b cs]. cbn [snd] in IH. destruct a as [a|n x v]; cbn [is_sync].
+  - destruct (sa_sp a); cbn [snd length]; rewrite IH; reflexivity.
+  - cbn [snd]. exact IH.
 Qed.
 
 (* the command line as the parser sees it *)
-Lemma parse_command_layout table p tag kw w kinds args ke crlf vals :
+Lemma parse_command_layout table p tag kw w kinds opts args ke crlf vals :
   tag <> [] -> forallb tag_char tag = true ->
   (1 <= kw)%nat -> w <> [] -> forallb atom_char w = true ->
-  lookup (upper_bytes w) table = Some kinds ->
-  Forall (arg_ok p) args -> interp_all kinds (map sa_val args) = Some vals ->
+  lookup (upper_bytes w) table = Some (kinds, opts) ->
+  Forall2 (arg_ok p) kinds args -> interp_all kinds args = Some vals ->
   let line := tag ++ repeat SP kw ++ w ++ fst (layout args ke crlf) in
   let cs := snd (layout args ke crlf) in
   parse_command table p (map snd cs) line = POk (Cmd tag (upper_bytes w) vals) [] [] /\
@@ -459,10 +523,9 @@ Lemma parse_command_layout table p tag kw w kinds args ke crlf vals :
      parse_command table p (firstn j (map snd cs)) line = PNeed (fst (nth j cs (0, [])))).
 Proof.
   intros Htag Htagc Hkw Hw Hwc Hlook Hok Hi line cs.
-  assert (Hsp' : Forall (fun a => (1 <= sa_spaces a)%nat) args).
-  { eapply Forall_impl; [|exact Hok]. intros x [Hx _]. exact Hx. }
-  pose proof (layout_head args ke crlf Hsp' atom_char eq_refl eq_refl eq_refl) as Hhead.
-  destruct (parse_args_layout p ke crlf args kinds vals Hok Hi) as [Pfull Pneed].
+  pose proof (follow_head atom_char _ (layout_follow args ke crlf (Forall2_spaces _ _ _ Hok))
+                eq_refl eq_refl eq_refl) as Hhead.
+  destruct (parse_args_layout p opts ke crlf args kinds vals Hok Hi) as [Pfull Pneed].
   assert (Etag : forall X, parse_class tag_char (tag ++ repeat SP kw ++ X)
                             = Some (tag, repeat SP kw ++ X)).
   { intro X. apply (parse_class_print tag_char 0); auto using tag_char_SP.
@@ -479,33 +542,25 @@ Proof.
     rewrite Eatom, Hlook. unfold cs. rewrite (Pneed j Hj). reflexivity.
 Qed.
 
-Lemma safe_end_class p x : x <> [] -> forallb p x = true -> p RBRACE = false -> p CR = false ->
-  safe_end x.
-Proof.
-  intros Hne H H1 H2. unfold safe_end. rewrite <- forallb_rev in H.
-  destruct (rev x) as [|c r]; [exact I|]. cbn [forallb] in H. apply andb_true_iff in H as [Hc _].
-  split; intro E; subst c; congruence.
-Qed.
-
-(* Whatever the spelling of each argument (atom, quoted, synchronizing or
+(* Whatever the spelling of each string argument (atom, quoted, synchronizing or
    non-synchronizing literal), the letter case of the command word, the
    number of spaces before the word, before each argument and before the end
    of the line, and the line ending (CRLF or LF): the server reads exactly the
    bytes of the command, asks for one continuation per synchronizing literal,
    and the parser delivers the command with the upper-cased word and the
    argument VALUES. *)
-Theorem command_spelling table p tag kw w kinds args ke crlf next vals :
+Theorem command_spelling table p tag kw w kinds opts args ke crlf next vals :
   tag <> [] -> forallb tag_char tag = true ->
   (1 <= kw)%nat -> w <> [] -> forallb atom_char w = true ->
-  lookup (upper_bytes w) table = Some kinds ->
-  Forall (arg_ok p) args -> interp_all kinds (map sa_val args) = Some vals ->
+  lookup (upper_bytes w) table = Some (kinds, opts) ->
+  Forall2 (arg_ok p) kinds args -> interp_all kinds args = Some vals ->
   read_command table p (cmd_wire tag kw w args ke crlf ++ next)
   = Ok (Cmd tag (upper_bytes w) vals, next, count_sync args).
 Proof.
   intros Htag Htagc Hkw Hw Hwc Hlook Hok Hi.
-  destruct (parse_command_layout table p tag kw w kinds args ke crlf vals
+  destruct (parse_command_layout table p tag kw w kinds opts args ke crlf vals
               Htag Htagc Hkw Hw Hwc Hlook Hok Hi) as [Pfull Pneed].
-  destruct (layout_glued p ke crlf args Hok) as [G1 G2].
+  destruct (layout_glued p ke crlf args kinds Hok) as [G1 G2].
   unfold read_command, cmd_wire.
   replace ((tag ++ repeat SP kw ++ w ++ flat_map arg_wire args ++ repeat SP ke ++ eol_bytes crlf) ++ next)
     with (((tag ++ repeat SP kw ++ w) ++ fst (layout args ke crlf)) ++
@@ -529,45 +584,26 @@ Proof.
   - apply Nat.lt_succ_diag_r.
 Qed.
 
-(* the three independences the property names, as corollaries: two wire forms
-   of the same tag, the same word up to letter case and the same argument
-   values are read as the same command, each consuming exactly its own bytes *)
-Corollary command_spelling_independent table p tag kinds vals
+(* two wire forms of the same tag, the same word up to letter case and the
+   same argument values are read as the same command, each consuming exactly
+   its own bytes *)
+Corollary command_spelling_independent table p tag kinds opts vals
     kw1 w1 args1 ke1 crlf1 kw2 w2 args2 ke2 crlf2 next1 next2 :
   tag <> [] -> forallb tag_char tag = true ->
   (1 <= kw1)%nat -> w1 <> [] -> forallb atom_char w1 = true ->
   (1 <= kw2)%nat -> w2 <> [] -> forallb atom_char w2 = true ->
   upper_bytes w1 = upper_bytes w2 ->
-  lookup (upper_bytes w1) table = Some kinds ->
-  Forall (arg_ok p) args1 -> Forall (arg_ok p) args2 ->
-  map sa_val args1 = map sa_val args2 ->
-  interp_all kinds (map sa_val args1) = Some vals ->
+  lookup (upper_bytes w1) table = Some (kinds, opts) ->
+  Forall2 (arg_ok p) kinds args1 -> Forall2 (arg_ok p) kinds args2 ->
+  interp_all kinds args1 = Some vals -> interp_all kinds args2 = Some vals ->
   exists c, read_command table p (cmd_wire tag kw1 w1 args1 ke1 crlf1 ++ next1)
             = Ok (c, next1, count_sync args1) /\
             read_command table p (cmd_wire tag kw2 w2 args2 ke2 crlf2 ++ next2)
             = Ok (c, next2, count_sync args2).
 Proof.
-  intros Htag Htagc Hk1 Hw1 Hc1 Hk2 Hw2 Hc2 Hup Hlook Ho1 Ho2 Hvals Hi.
+  intros Htag Htagc Hk1 Hw1 Hc1 Hk2 Hw2 Hc2 Hup Hlook Ho1 Ho2 Hi1 Hi2.
   exists (Cmd tag (upper_bytes w1) vals). split.
-  - apply (command_spelling table p tag kw1 w1 kinds); assumption.
-  - rewrite Hup. apply (command_spelling table p tag kw2 w2 kinds); try assumption.
-    + rewrite <- Hup. exact Hlook.
-    + rewrite <- Hvals. exact Hi.
-Qed.
-
-(* non-vacuity: LOGIN with a synchronizing literal and a LITERAL+ whose
-   payload ends in a LITERAL+ marker, lower-case word, extra spaces, bare LF,
-   followed by the next pipelined command *)
-Example command_spelling_example :
-  let args := [ {| sa_spaces := 2; sa_sp := SpLit; sa_val := [117; 115; 101; 114] |};
-                {| sa_spaces := 1; sa_sp := SpLitPlus; sa_val := [97; 98; 123; 50; 43; 125] |} ] in
-  let next := [98; 32; 78; 79; 79; 80; 13; 10] in
-  Forall (arg_ok default_sparams) args /\
-  read_command cmd_table default_sparams
-    (cmd_wire [97] 1 [108; 111; 103; 105; 110] args 1 false ++ next)
-  = Ok (Cmd [97] w_LOGIN [VStr [117; 115; 101; 114]; VStr [97; 98; 123; 50; 43; 125]], next, 1%nat).
-Proof.
-  cbv zeta. split.
-  - repeat constructor.
-  - vm_compute. reflexivity.
+  - apply (command_spelling table p tag kw1 w1 kinds opts); assumption.
+  - rewrite Hup. apply (command_spelling table p tag kw2 w2 kinds opts); try assumption.
+    rewrite <- Hup. exact Hlook.
 Qed.
